@@ -3,8 +3,10 @@ package main
 
 import (
 	"fmt"
+	"sort"
 	"strings"
 
+	rparser "github.com/gardenbed/emerge/internal/regex/parser"
 	rast "github.com/gardenbed/emerge/internal/regex/parser/ast"
 	"github.com/gardenbed/emerge/internal/regex/parser/nfa"
 	"github.com/gardenbed/emerge/verif/ev"
@@ -119,7 +121,7 @@ func main() {
 		r.Finish()
 	}
 	if r.Fork(16) {
-		r.Set("rule", "all strings up to the length bound over the 24-symbol alphabet "+string(sigma)+" (every metacharacter plus representatives), canonical prints of the C02 pattern trees, all single-character insertions/deletions/replacements of the prints of trees with <= 2 (quick) / 3 (thorough) operator nodes, meaningless ranges, and every character (all of ASCII plus 5 others) in 30 item contexts (escape, bracket item, range end, repetition count, class name, hex digit); non-trivial = accepted by at least one entry point (or a meaningless-range case); distinct by text")
+		r.Set("rule", "all strings up to the length bound over the 24-symbol alphabet "+string(sigma)+" (every metacharacter plus representatives), canonical prints of the C02 pattern trees, all single-character insertions/deletions/replacements of the prints of trees with <= 2 (quick) / 3 (thorough) operator nodes, meaningless ranges, every class name (known to the implementation or documented, and near misses) in 10 contexts, and every character (all of ASCII plus 5 others) in 30 item contexts (escape, bracket item, range end, repetition count, class name, hex digit); non-trivial = accepted by at least one entry point (or a meaningless-range case); distinct by text")
 		r.Set("evaluations", r.Get("strings"))
 		r.Finish()
 	}
@@ -236,6 +238,34 @@ func main() {
 			}
 		}
 		checkString(r, "", "empty", false)
+		// (6) class names: every name the implementation's tables know, every documented name, and near misses of both
+		// (other case, one letter dropped or added), in every place a name can be written
+		names := map[string]bool{"": true, "ASCII": true, "Ascii": true, "ascii": true, "punct": true, "cntrl": true, "graph": true, "print": true, "Any": true, "L&": true}
+		for k := range rparser.RuneClasses {
+			names[k] = true
+		}
+		for _, k := range regexref.UnicodeCategories {
+			names[k] = true
+		}
+		for _, k := range regexref.ASCIIClassNames {
+			names[strings.Trim(k, "[:]")] = true
+		}
+		var all []string
+		for k := range names {
+			all = append(all, k, strings.ToLower(k), strings.ToUpper(k), k+"x")
+			if len(k) > 1 {
+				all = append(all, k[:len(k)-1], k[1:])
+			}
+		}
+		sort.Strings(all)
+		for i, nm := range all {
+			if i > 0 && all[i-1] == nm {
+				continue
+			}
+			for _, ctx := range []string{"\\p{%s}", "\\P{%s}", "[\\p{%s}]", "[^\\P{%s}a]", "[:%s:]", "[[:%s:]]", "[^[:%s:]]", "[a[:%s:]]", "\\p%s", "\\p{%s"} {
+				checkString(r, strings.ReplaceAll(ctx, "%s", nm), "class_names", false)
+			}
+		}
 		// (5) every character in every item context: escapes, bracket items, range ends, repetition counts, class names
 		var chars []rune
 		for c := rune(0); c <= 0x7F; c++ {
